@@ -91,8 +91,13 @@ impl<const D: usize> World<D> {
 
     /// a query/insert point of a chosen class relative to the current state
     pub fn pick_point(&self, rng: &mut Rng, r: i64) -> ([f64; D], &'static str) {
+        let class = rng.below(12);
+        self.pick_point_class(rng, r, class)
+    }
+
+    /// a point of one given class (see the match below)
+    pub fn pick_point_class(&self, rng: &mut Rng, r: i64, class: u64) -> ([f64; D], &'static str) {
         let live = self.live_coords();
-        let class = rng.below(10);
         let mut p = [0.0f64; D];
         let rnd = |rng: &mut Rng, p: &mut [f64; D], r: i64| {
             for x in p.iter_mut() {
@@ -137,6 +142,49 @@ impl<const D: usize> World<D> {
             7 => {
                 // exact duplicate of a live vertex
                 (*rng.pick(&live), "duplicate")
+            }
+            10 => {
+                // on the hyperplane of a hull facet but outside the facet: a_2 + a_3 - a_1 (D >= 3),
+                // or beyond the end of a hull edge (D = 2): an exterior point that sees a hull facet
+                // edge-on (weak visibility)
+                let mut facet: Option<Vec<[f64; D]>> = None;
+                let cells: Vec<_> = self.dt.cells().map(|(k, _)| k).collect();
+                if !cells.is_empty() {
+                    for _ in 0..20 {
+                        let ck = *rng.pick(&cells);
+                        let Some(c) = self.dt.tds().get_cell(ck) else { continue };
+                        let slot = match c.neighbors() {
+                            None => Some(rng.below((D + 1) as u64) as usize),
+                            Some(nb) => nb.iter().position(|n| n.is_none()),
+                        };
+                        if let Some(sl) = slot {
+                            let pts: Vec<[f64; D]> = c.vertices().iter().enumerate().filter(|(i, _)| *i != sl)
+                                .filter_map(|(_, vk)| self.dt.tds().get_vertex_by_key(*vk).map(|v| *v.point().coords())).collect();
+                            if pts.len() == D { facet = Some(pts); break; }
+                        }
+                    }
+                }
+                match facet {
+                    Some(mut f) => {
+                        rng.shuffle(&mut f);
+                        let k = if D >= 3 { 2 } else { 1 };
+                        // a_1 + sum_{j=1..k} (a_{j+1} - a_1) * m : affine combination on the facet plane
+                        let m = if rng.chance(1, 2) { 1.0 } else { 2.0 };
+                        for i in 0..D {
+                            p[i] = f[0][i];
+                            for j in 1..=k { p[i] += m * (f[j][i] - f[0][i]); }
+                        }
+                        (p, "facet_plane_exterior")
+                    }
+                    None => { rnd(rng, &mut p, r); (p, "grid") }
+                }
+            }
+            11 => {
+                // beyond a vertex along the line through two vertices: 2b - a
+                let a = rng.pick(&live);
+                let b = rng.pick(&live);
+                for i in 0..D { p[i] = 2.0 * b[i] - a[i]; }
+                (p, "collinear_beyond")
             }
             8 => {
                 // near duplicate: within / just outside the 1e-10 tolerance
